@@ -22,6 +22,22 @@ type Int struct {
 
 	tz uint8    // the value is known to be a multiple of 2^tz (set by left shifts)
 	wr *wrapRec // the word is d - 2^bits*n for the wrap symbol n (wrap mode)
+
+	// pend: strict mode, the word may have wrapped (its unwrapped value is d,
+	// ranging over dR).  +, -, multiplication by a constant and << continue
+	// with d (they commute with reduction modulo 2^w), so a wrap that cancels
+	// inside one expression, e.g. (a - b) + c, yields an exact in-range
+	// result; any other use of the word fails the obligation at its origin.
+	pend *pending
+}
+
+type pending struct {
+	d    *Form
+	dR   Itv
+	in   ssa.Instruction // the instruction that may wrap first
+	what string
+	r0   Itv // the range reported for it
+	k    ikind
 }
 
 // wrapRec records how a wrapped unsigned word was obtained: value = d - 2^bits*n
